@@ -215,6 +215,19 @@ def _rewrite(prop, case, f):
     return f.get("kind", "").startswith(("dataset_unreadable_after_rejection", "content_changed_after_rejection", "existing_part_file_unreadable_after_rejection"))
 
 
+@pred("edit-through-sliced-handle-drops-the-other-row-groups")
+def _sliced_edit(prop, case, f):
+    # pf[a:b].write_row_groups: part numbers and the rewritten _metadata come from the slice's row groups only
+    if prop != "C07" or not case.get("sliced_handle_append") or f.get("refused") is not None:
+        return False
+    a, b = case["slice"]
+    if (a, b) == (0, f.get("row_groups")):
+        return False      # (a slice that is the whole dataset loses nothing)
+    if f.get("kind") == "rows_lost_by_append_through_sliced_handle":
+        return not f.get("unexpected")       # rows of the other row groups go missing; nothing is invented
+    return f.get("kind") == "existing_data_files_changed_by_append_through_sliced_handle"
+
+
 @pred("refused-append-to-bare-directory-leaves-part-files")
 def _bare_dir(prop, case, f):
     # a dataset without _metadata is what its directory holds: the part files a late-refused append has already created (the last one
